@@ -76,7 +76,8 @@ class Replayer:
         await self.settle()
         msgs = fs.decode_server_msgs(self.ws.take_outbox())
         inits = [m for m in msgs if m["type"] == "init"]
-        rep = inits[0]["state"] if len(inits) == 1 and inits[0].get("ok") and isinstance(inits[0].get("state"), int) else -1
+        # (should the server report its state more than once before the first request, the last report counts)
+        rep = inits[-1]["state"] if inits and all(m.get("ok") for m in inits) and isinstance(inits[-1].get("state"), int) else -1
         self.ev.append({"e": "connect", "rep": rep, "d": self.proj()})
 
     async def ensure(self):
@@ -166,7 +167,7 @@ class Replayer:
             await self.drain_timers()
             msgs = fs.decode_server_msgs(self.ws.take_outbox())
             inits = [m for m in msgs if m["type"] == "init"]
-            rep = inits[0]["state"] if len(inits) == 1 and inits[0].get("ok") else -1
+            rep = inits[-1]["state"] if inits and all(m.get("ok") for m in inits) and isinstance(inits[-1].get("state"), int) else -1
             self.ev.append({"e": "connect", "rep": rep, "d": self.proj()})
         else:
             raise MachineryError("unknown symbol " + sym)
@@ -215,8 +216,8 @@ class Replayer:
             await self.request(s)
         await self.probe()
         await self.world.shutdown()
-        if fs.FAKE_GAPS:
-            self.ev.append({"e": "fakegap", "what": fs.FAKE_GAPS[-1], "d": {"st": 0, "cfg": 0, "idx": 0}})
+        if fs.FAKE_GAPS or fs.REAL_TIMERS:
+            self.ev.append({"e": "fakegap", "what": (fs.FAKE_GAPS or fs.REAL_TIMERS)[-1], "d": {"st": 0, "cfg": 0, "idx": 0}})
         return self.ev
 
 
@@ -294,7 +295,7 @@ def main(argv_tier=None, replay_path=None):
             verdicts["L%d" % k] = lverd["L%d" % k]
     gaps = [e["what"] for t in traces for e in t["ev"] if e.get("e") == "fakegap"]
     if gaps:
-        raise MachineryError("the fake websocket lacks a part of the protocol API that the server code uses: %s" % gaps[0])
+        raise MachineryError("a harness seam is ineffective on this tree (fake websocket API gap or a timer on the wall clock): %s" % gaps[0])
     rej = []
     for t in traces:
         v = verdicts[t["tid"]]
